@@ -46,5 +46,10 @@ func H_C13_v1_fields() {
 	var t UUIDv1
 	vCheck(t.FromString(u.String()) == nil, "v1/fields/text-ok")
 	vCheck(t.Time == u.Time && t.ClockSeq == u.ClockSeq && t.NodeID == u.NodeID, "v1/fields/text-identity")
+	vCheck(t.GetClockSequence() == u.ClockSeq && vBytesEq(t.GetNodeID(), node), "v1/fields/accessors")
+	vCheck(u.SetNodeID(node[:5]) != nil, "v1/fields/SetNodeID-wants-6-octets")
+	var b UUIDv1
+	vCheck(b.FromBytes(enc) == nil && b.Time == u.Time && b.ClockSeq == u.ClockSeq && b.NodeID == u.NodeID, "v1/fields/FromBytes")
+	vCheck(b.FromBytes(enc[:15]) != nil, "v1/fields/FromBytes-wants-16-octets")
 	vCover("end")
 }
